@@ -50,6 +50,7 @@ def _run_serial_job(idx):
         h.install()
         # first path under the profiler to record the functions actually encoded
         S, spec = engine._make_session(h, opts.get("seed", 0), opts.get("solver_timeout_ms", 120000))
+        S.smt2_budget = opts.get("smt2_samples", 0)
         totals = engine.Totals()
         (rest), funcs = _profile_functions(lambda: engine._dfs(S, h, spec, [[]], totals, max_paths=1))
         deadline = t0 + opts["time_budget"] if opts.get("time_budget") else None
@@ -61,6 +62,7 @@ def _run_serial_job(idx):
         totals.wall_s = time.time() - t0
         totals.functions = sorted(funcs)
         totals.installed = json.loads(json.dumps(sinstall.INSTALLED, default=str))
+        totals.smt2_samples = [(n, t) for n, t in S.smt2_samples if len(t) < 400000]
         try:
             totals.concrete_samples = engine.sample_models(S, k=opts.get("concrete_samples", 2), seed=opts.get("seed", 0))
         except BaseException:  # noqa
@@ -268,3 +270,58 @@ def match_known(prop, h, viol, failures_text):
         except Exception:
             continue
     return None
+
+
+# ------------------------------------------------------------------------------------------------------
+def cross_solver_check(samples, workdir, timeout=60, log=print):
+    """Re-decide dumped obligations (SMT-LIB2: assumptions /\ path condition /\ not claim; expected `unsat`) with
+    the other installed solvers.  Returns (stats dict, list of disagreement messages)."""
+    import shutil
+    import tempfile
+
+    solvers = []
+    if shutil.which("z3") and os.path.exists("/usr/bin/z3"):
+        solvers.append(("z3-4.8.12", ["/usr/bin/z3", "-smt2", f"-T:{timeout}"]))
+    if shutil.which("cvc5"):
+        solvers.append(("cvc5", ["cvc5", f"--tlimit={timeout * 1000}"]))
+    stats = {name: {"unsat": 0, "sat": 0, "unknown_or_timeout": 0, "error": 0} for name, _ in solvers}
+    bad = []
+    d = tempfile.mkdtemp(prefix="smt2_", dir=workdir)
+    try:
+        for i, (hname, oname, text) in enumerate(samples):
+            f = os.path.join(d, f"q{i}.smt2")
+            with open(f, "w") as fh:
+                fh.write(text if "(check-sat)" in text else text + "\n(check-sat)\n")
+            for name, cmd in solvers:
+                try:
+                    r = subprocess.run(cmd + [f], capture_output=True, text=True, timeout=timeout + 20)
+                    out = (r.stdout + r.stderr).strip()
+                except subprocess.TimeoutExpired:
+                    out = "timeout"
+                first = out.splitlines()[0].strip() if out else ""
+                if "(error" in out:
+                    stats[name]["error"] += 1  # treated as inconclusive for that solver (encoding not accepted)
+                elif first == "unsat":
+                    stats[name]["unsat"] += 1
+                elif first == "sat":
+                    stats[name]["sat"] += 1
+                    bad.append(f"{name} answers sat on an obligation z3 5.1 discharged: {hname} / {oname}")
+                else:
+                    stats[name]["unknown_or_timeout"] += 1
+    finally:
+        shutil.rmtree(d, ignore_errors=True)
+    return stats, bad
+
+
+def crosshair_check(path, timeout=40):
+    """second symbolic engine on pure-python leaf functions; every condition must be 'Confirmed over all paths'"""
+    env = dict(os.environ, PYTHONDONTWRITEBYTECODE="1", PYTHONWARNINGS="ignore")
+    try:
+        r = subprocess.run([sys.executable, "-m", "crosshair", "check", "--report_all", f"--per_condition_timeout={timeout}", path],
+                           cwd=VERIF, env=env, capture_output=True, text=True, timeout=timeout * 6 + 60)
+    except subprocess.TimeoutExpired:
+        return 0, ["crosshair timed out"]
+    lines = [l for l in (r.stdout + r.stderr).splitlines() if path.split("/")[-1] in l]
+    confirmed = sum(1 for l in lines if "Confirmed over all paths" in l)
+    other = [l.split(": ", 1)[-1] for l in lines if "Confirmed over all paths" not in l]
+    return confirmed, other
